@@ -41,7 +41,9 @@ def ext_hash(repo=REPO):
 
 def _prune(keep):
     try:
-        ds = [d for d in os.listdir(ROOT) if len(d) == 16 and d != keep]
+        ds = [d for d in os.listdir(ROOT)
+              if len(d) in (16, 25) and d != keep and
+              os.path.isdir(os.path.join(ROOT, d))]
     except FileNotFoundError:
         return
     ds.sort(key=lambda d: os.path.getmtime(os.path.join(ROOT, d)))
@@ -53,6 +55,12 @@ def ensure(verbose=False, repo=REPO):
     """Synchronise sources, build extensions if needed; return env dict."""
     os.makedirs(ROOT, exist_ok=True)
     eh = ext_hash(repo)
+    primary = os.path.join(ROOT, eh)
+    if os.path.realpath(repo) != os.path.realpath('/repo'):
+        # a scratch tree (seeded change): its own directory, so that checks
+        # running on /repo at the same time cannot re-synchronise over it
+        eh = eh + '-' + hashlib.sha1(
+            os.path.realpath(repo).encode()).hexdigest()[:8]
     base = os.path.join(ROOT, eh)
     src = os.path.join(base, 'src')
     home = os.path.join(base, 'home')
@@ -76,6 +84,15 @@ def ensure(verbose=False, repo=REPO):
             if os.path.exists(p):
                 shutil.copy2(p, os.path.join(src, f))
         stamp = os.path.join(base, 'BUILT')
+        if not os.path.exists(stamp) and base != primary and \
+                os.path.exists(os.path.join(primary, 'BUILT')):
+            # same extension sources as an existing build: take its binaries
+            r = subprocess.run(
+                ['rsync', '-a', '--include', '*/', '--include', '*.so',
+                 '--exclude', '*', os.path.join(primary, 'src') + '/',
+                 src + '/'], capture_output=True, text=True)
+            if r.returncode == 0:
+                open(stamp, 'w').write('copied from ' + primary)
         if not os.path.exists(stamp):
             env = dict(os.environ, HOME=home)
             env.pop('PYTHONPATH', None)
